@@ -69,6 +69,49 @@ def model_mismatches(ctx, name, cases):
     return bad
 
 
+# ---- independent evaluation of the single-clause patterns (cross-check of the "rows from SELECT" input) ----
+def _cell_of_obj(o):
+    if o.get("n") is not None:
+        return {"n": o["n"]}
+    if o.get("p") is not None:
+        return {"p": o["p"]}
+    return {"l": o["l"]}
+
+
+SIMPLE = {
+    '?s ?p ?o': lambda t: {"?s": {"n": t["s"]}, "?p": {"p": t["p"]}, "?o": _cell_of_obj(t["o"])},
+    '?s "p"@[] ?o': lambda t: {"?s": {"n": t["s"]}, "?o": _cell_of_obj(t["o"])} if t["p"]["id"] == "p" and t["p"]["a"] is None else None,
+    '?s "r"@[?t] ?o': lambda t: {"?s": {"n": t["s"]}, "?t": {"t": t["p"]["a"]}, "?o": _cell_of_obj(t["o"])} if t["p"]["id"] == "r" and t["p"]["a"] is not None else None,
+    '/u<a> ?p ?o': lambda t: {"?p": {"p": t["p"]}, "?o": _cell_of_obj(t["o"])} if t["s"] == {"t": "/u", "i": "a"} else None,
+    '?s ?p /u<b>': lambda t: {"?s": {"n": t["s"]}, "?p": {"p": t["p"]}} if t["o"].get("n") == {"t": "/u", "i": "b"} else None,
+    '?s "_subject"@[] ?o': lambda t: {"?s": {"n": t["s"]}, "?o": _cell_of_obj(t["o"])} if t["p"]["id"] == "_subject" and t["p"]["a"] is None else None,
+}
+
+
+def rows_crosscheck(cases):
+    """(compared, list of disagreeing cases): solutions computed here from the listing vs. rows the real engine returned"""
+    n, bad = 0, []
+    for c in cases:
+        st = c["stmt"]
+        f = SIMPLE.get(st.get("note") or "")
+        q = st.get("q")
+        if st["kind"] != "construct" or f is None or not q or not q.get("ok"):
+            continue
+        if any(g not in c["prev"] for g in st["ins"]):
+            continue
+        mine = []
+        for g in st["ins"]:
+            for t in c["prev"][g]:
+                r = f(t)
+                if r is not None:
+                    mine.append(r)
+        canon = lambda rows: sorted(json.dumps(r, sort_keys=True) for r in rows)
+        n += 1
+        if canon(mine) != canon(q.get("rows") or []):
+            bad.append({"text": st["text"], "engine_rows": len(q.get("rows") or []), "own_rows": len(mine)})
+    return n, bad
+
+
 def nontrivial(c):
     st = c["stmt"]
     return st["obs"]["class"] != "reject" and (c["prev"] != st["obs"]["after"] or st["obs"]["class"] == "error")
@@ -98,6 +141,12 @@ def run(ctx):
         ctx.violation({"kind": "executor-model-vs-real-engine", "case": slim(cases[i]),
                        "explain": "outcome class or the listing of some graph after the statement differs from "
                                   "exec (Coq, vm_compute) run on the observed previous store, modulo renaming of new blank nodes"})
+    nx, badx = rows_crosscheck(cases)
+    ctx.cov["rows_crosschecked"] = nx
+    ctx.cov["rows_crosscheck_disagreements"] = badx[:5]
+    if badx:
+        ctx.notes.append("%d/%d single-clause patterns: the rows returned by the engine's SELECT differ from the solutions "
+                         "computed from the listing (query engine = other family's property; not a C04 violation)" % (len(badx), nx))
     ctx.cov["evaluations"] = len(cases)
     ctx.cov["distinct_nontrivial"] = len({vcheck.case_hash([c["bulk"], c["prev"], c["stmt"]["text"]]) for c in cases if nontrivial(c)})
     ctx.cov["rule"] = ("one evaluation = one statement of a generated sequence (1-8 statements, 3 graphs + one unknown "
